@@ -94,6 +94,21 @@ func main() {
 		os.Exit(1)
 	}
 	w.buildSSA(false)
+	if d := os.Getenv("PVCHECK_DUMP"); d != "" {
+		// debugging aid: PVCHECK_DUMP=<pkg rel>:<Type.method|func> prints the SSA form
+		if i := strings.LastIndex(d, ":"); i > 0 {
+			if fn := w.SSAFunc(d[:i], d[i+1:]); fn != nil {
+				fn.WriteTo(os.Stdout)
+				for _, a := range fn.AnonFuncs {
+					a.WriteTo(os.Stdout)
+					for _, b := range a.AnonFuncs {
+						b.WriteTo(os.Stdout)
+					}
+				}
+			}
+		}
+		return
+	}
 	total := 0
 	for _, id := range ids {
 		r := newRun(id, tier, w)
